@@ -71,6 +71,68 @@ Theorem C09_locate_discrete_moved :
 Proof. exact locate_discrete_moved. Qed.
 Print Assumptions C09_locate_discrete_moved.
 
+(* (3b) The relational premises are met by what the harness builds: the same content
+   pasted at two offsets into two blank canvases ([embed]) is [moved] by the offset
+   difference; [fitsb sh off csh m] decides "the box [off, off+csh) keeps distance m from
+   the edges of sh", which gives content_inside (m = margin) and content_has_room
+   (m = radius + max_iterations - 1). *)
+Theorem C09_embed_moved : forall content sh1 off1 sh2 off2,
+  length off1 = length sh1 -> length off2 = length sh1 -> length sh2 = length sh1 ->
+  (forall c, length c = length sh1 -> pix content c <> 0 ->
+             in_bounds sh1 (vadd c off1) /\ in_bounds sh2 (vadd c off2)) ->
+  moved (vsub off2 off1) (embed sh1 off1 content) (embed sh2 off2 content).
+Proof. exact embed_moved. Qed.
+Print Assumptions C09_embed_moved.
+
+Theorem C09_embed_content_inside : forall sh off content mg,
+  length off = length sh -> (forall c, pix content c <> 0 -> in_bounds (shape content) c) ->
+  fitsb sh off (shape content) mg = true ->
+  content_inside mg (embed sh off content).
+Proof. exact embed_content_inside. Qed.
+Print Assumptions C09_embed_content_inside.
+
+Theorem C09_embed_has_room : forall P content sh1 off1 sh2 off2,
+  length off1 = length sh1 -> length off2 = length sh1 -> length sh2 = length sh1 ->
+  (forall c, pix content c <> 0 -> in_bounds (shape content) c) ->
+  let m := map (fun r => r + Z.of_nat (pred (iters_of (lp_maxit P)))) (lp_radius P) in
+  fitsb sh1 off1 (shape content) m = true -> fitsb sh2 off2 (shape content) m = true ->
+  content_has_room P (vsub off2 off1) (embed sh1 off1 content) (embed sh2 off2 content).
+Proof. exact embed_has_room. Qed.
+Print Assumptions C09_embed_has_room.
+
+(* Non-vacuity: a 5x5 blob at (4,5) in a 14x15 canvas and at (7,4) in a 16x14 canvas,
+   diameter 3, separation 3, max_iterations 3, constant threshold 1/2, meets every
+   premise of (1)-(3); one feature is found, at (6,7) resp. (9,6), mass 37. *)
+Example C09_translation_premises_satisfiable :
+  moved ex_d ex_im1 ex_im2 /\
+  length ex_d = length (shape ex_im1) /\
+  length (lp_sep ex_P) = length (shape ex_im1) /\ length (lp_margin ex_P) = length (shape ex_im1) /\
+  length (lp_radius ex_P) = length (shape ex_im1) /\
+  Forall (fun s => 1 <= s) (sizes_of ex_im1 (lp_sep ex_P)) /\
+  (forall p, 0 <= pix ex_im1 p) /\
+  content_inside (lp_margin ex_P) ex_im1 /\ content_inside (lp_margin ex_P) ex_im2 /\
+  content_has_room ex_P ex_d ex_im1 ex_im2.
+Proof. exact ex_premises. Qed.
+
+Example C09_translation_instance_nontrivial :
+  find_maxima ex_percentile ex_P ex_im1 = [[6; 7]] /\ find_maxima ex_percentile ex_P ex_im2 = [[9; 6]] /\
+  map o_mass (locate_discrete ex_percentile ex_P ex_im1) = [37].
+Proof. exact ex_nontrivial. Qed.
+
+(* (4) Transposition, maxima stage: for ANY integer image (no premise on its content),
+   the maxima of the transposed image (numpy .T: axes reversed), found with separation
+   and margin reversed alike, are the transposed maxima. *)
+Theorem C09_maxima_transposed :
+  forall (percentile : list Z -> Q),
+    (forall l l', Permutation l l' -> percentile l = percentile l') ->
+  forall im1 im2 P,
+    transposed im1 im2 ->
+    length (lp_sep P) = length (shape im1) -> length (lp_margin P) = length (shape im1) ->
+    Forall (fun s => 1 <= s) (sizes_of im1 (lp_sep P)) ->
+    forall q, In q (find_maxima percentile (lp_rev P) im2) <-> In (rev q) (find_maxima percentile P im1).
+Proof. exact maxima_transposed. Qed.
+Print Assumptions C09_maxima_transposed.
+
 (* (5) batch, in-process (processes <= 1): the returned table is locate on each frame,
    every row tagged with the frame's number (its frame_no attribute, else its
    position in the sequence), concatenated in frame order; frames without features
@@ -116,3 +178,14 @@ Theorem C09_monitor_transposed_sound : forall tolp tol A B,
   exists z, Forall2 (trow_related tolp tol z) A (map rev_pos B) /\ Forall (fun q => q = 0%Q) z.
 Proof. exact check_transposed_sound. Qed.
 Print Assumptions C09_monitor_transposed_sound.
+
+(* Non-vacuity of (4) and (6). *)
+Example C09_transposition_instance :
+  transposed ex_im1 (transpose ex_im1) /\
+  find_maxima ex_percentile (lp_rev ex_P) (transpose ex_im1) = [[7; 6]].
+Proof. exact ex_transposed. Qed.
+
+Example C09_batch_instance :
+  batch_imap nat nat (fun n => seq 0 n) (fun n => if Nat.even n then Some (10 + n)%nat else None) [2; 0; 1]%nat false [3; 0; 2]%nat
+  = [(0, 0); (1, 0); (2, 0); (0, 12); (1, 12)]%nat.
+Proof. exact ex_batch. Qed.
